@@ -856,8 +856,52 @@ func (d *Ledger) actBigMulti() bool {
 	return false
 }
 
+// clearedEntry: a fungible holding whose entry still carries a (cleared) 2-byte properties field - it was frozen once and un-frozen
+// while holding a balance.
+func (d *Ledger) clearedEntry() (holding, bool) {
+	var l []holding
+	for _, h := range d.fungHoldings() {
+		ai := d.W.Info(h.acct)
+		acc := d.W.Shards[ai.Shard].Peek(ai.Bytes)
+		if acc == nil || h.val.Sign() <= 0 {
+			continue
+		}
+		if e, ok := world.DecodeEntry(acc.Storage["ELRONDesdt"+string(h.key)]); ok && len(e.Properties) == 2 && e.Properties[0]&1 == 0 {
+			l = append(l, h)
+		}
+	}
+	if len(l) == 0 {
+		return holding{}, false
+	}
+	return l[d.R.Intn(len(l))], true
+}
+
+// actDrainCleared: an account that went through a freeze / un-freeze cycle spends its ENTIRE balance, by each of the ways out.
+func (d *Ledger) actDrainCleared() bool {
+	h, ok := d.clearedEntry()
+	if !ok {
+		return false
+	}
+	all := h.val.Bytes()
+	var c *world.Call
+	switch d.R.Intn(4) {
+	case 0:
+		c = d.call("ESDTTransfer", h.acct, d.otherAcct(h.acct), h.tok, all)
+	case 1:
+		c = d.call("ESDTBurn", h.acct, "esdtsc", h.tok, all)
+	default:
+		c = d.call("MultiESDTNFTTransfer", h.acct, h.acct, d.W.Addr(d.otherAcct(h.acct)), nb(1), h.tok, []byte{}, all)
+	}
+	c.RAE = false
+	d.record("exec", d.shardOfName(h.acct), c)
+	return true
+}
+
 func (d *Ledger) actMulti() {
 	if d.chance(3) && d.actBigMulti() {
+		return
+	}
+	if d.chance(10) && d.actDrainCleared() {
 		return
 	}
 	hs := d.holdings()
